@@ -4,7 +4,8 @@ from common import *  # noqa: F401,F403
 RULE = ("random curves (polynomial/rational, scalar/vector, degree 0..3): (a) insert nodes then remove them (round trip, default tolerance), "
         "(b) removal of a knot of a generic curve (not removable): refused, or accepted within the tolerance bound, (c) explicit large "
         "tolerances, (d) tolerance=None (forced removal: interpolates at every remaining knot), (e) absent knots / end knots.  "
-        "Non-trivial: degree >= 1; distinct = distinct (U,P,W,nodes,tolerance,mode).")
+        "Non-trivial: degree >= 1; distinct = distinct (U,P,W,nodes,tolerance,mode)."
+        " Also: tolerances just below / above the measured cost of the removal (adaptive), dyadic knots with a float twin first, a rational curve whose refit needs a zero weight.")
 EXPLANATION = ("L2: resulting state or refusal vs the model's least-squares removal (exact); L3: exactness via `rf.eq`, deviation via the exact "
                "integral of the squared difference of the span polynomials (`rf.sqdist`), interpolation by exact evaluation, atomicity by snapshot.")
 ASSUMPTIONS = ["weights positive", "deviation bound checked for polynomial curves (the rational integral is not a rational number)"]
